@@ -2,7 +2,7 @@
    Model: model/H2Flow.v (flow.go) + model/H2Stream.v (serve-loop steps of bfe_http2/server.go);
    c_inflow = sc.inflow.n, s_inflow = st.inflow.n, s_buf = unread octets in the request body pipe. *)
 From Coq Require Import List ZArith Bool.
-From Bfe Require Import lib.Val model.H2Flow model.H2Stream run.RunC33 proofs.H2StreamProofs.
+From Bfe Require Import lib.Val model.H2Flow model.H2Stream run.RunC33 proofs.H2StreamProofs proofs.H2StreamCentralProofs.
 Import ListNotations.
 Open Scope Z_scope.
 
@@ -74,3 +74,37 @@ Example C33_nonvacuous :
     [[]; [(1, 0, 8); (1, 1, 8)]; [(1, 0, 2); (1, 1, 2); (6, 1, 2)]; [(1, 0, 9); (2, 1, 1)]] /\
   c_inflow (fst (run_ops (init_conn 100 0) ops)) = 65534.
 Proof. exact (conj eq_refl (conj eq_refl (conj eq_refl eq_refl))). Qed.
+
+(* ---- central statement: the predicate the harness evaluates on the implementation, on the model ---- *)
+(* Full statement (NOT proved in general):
+     forall i, wf_script i = true -> kf_C33 i = 0 -> prop_C33 i (run_C33 i) = true.
+   Proved: (a) for every accepted input, prop_C33 on the model's own output is the client-side validator
+   spec_run applied to the model's trace (the wire encoding is read back exactly); *)
+Theorem C33_prop_on_model : forall i isw maxs ops,
+  dec_script i = Some (isw, maxs, ops) ->
+  prop_C33 i (run_C33 i) =
+  spec_run (if isw =? 0 then init_window else isw) (mkK init_window [] false) ops
+           (snd (run_ops (init_conn isw maxs) ops)).
+Proof. exact prop_C33_on_model. Qed.
+Print Assumptions C33_prop_on_model.
+
+(* (b) the central statement for ALL scripts of length <= 4 over two alphabets (41371 + 30941 scripts,
+   enumerated completely in Coq): stream window 4 (padding, END_STREAM, content-length 2, exact fill, one
+   octet over, second and unknown stream, partial/full reads, Body.Close, handler return, RST), and the
+   default 65535 windows (connection window exactly full / one over across two streams). *)
+Theorem C33_central_bounded_partial : forall i isw ops,
+  dec_script i = Some (isw, 0, ops) ->
+  (isw = 4 /\ In ops (scripts 4 al33)) \/ (isw = 0 /\ In ops (scripts 4 al33d)) ->
+  kf_C33 i = 0 -> prop_C33 i (run_C33 i) = true.
+Proof. exact prop_C33_bounded. Qed.
+Print Assumptions C33_central_bounded_partial.
+
+(* wf_script is the executable well-formedness predicate (= the decoder accepts); a corpus case satisfies it
+   and lies in the bounded language *)
+Example C33_wf_corpus_case :
+  let i := VL [VL [VZ 4; VZ 0]; VL [VL [VZ 1; VZ 1; VZ 0; VZ 0; VZ (-1)]; VL [VZ 2; VZ 1; VZ 3; VZ 0; VZ 0];
+                                   VL [VZ 6; VZ 1; VZ 1; VZ 0; VZ 0]; VL [VZ 2; VZ 1; VZ 5; VZ (-1); VZ 0]]] in
+  wf_script i = true /\ kf_C33 i = 0 /\
+  dec_script i = Some (4, 0, [OHeaders 1 false 0 (-1); OData 1 3 0 false; ORead 1 1; OData 1 5 (-1) false]) /\
+  prop_C33 i (run_C33 i) = true.
+Proof. vm_compute. repeat split. Qed.
